@@ -37,22 +37,35 @@ open GoZero.C14.Spec
 @[simp] theorem isStmt_query (i : Nat) (ok : Bool) : isStmt (.query i ok) = true := rfl
 @[simp] theorem isStmt_commit (ok : Bool) : isStmt (.commit ok) = false := rfl
 @[simp] theorem isStmt_rollback (ok : Bool) : isStmt (.rollback ok) = false := rfl
+@[simp] theorem isBegin_beginBad : isBegin .beginBad = false := rfl
+@[simp] theorem isBeginOk_beginBad : isBeginOk .beginBad = false := rfl
+@[simp] theorem isCommit_beginBad : isCommit .beginBad = false := rfl
+@[simp] theorem isRollback_beginBad : isRollback .beginBad = false := rfl
+@[simp] theorem isEnd_beginBad : isEnd .beginBad = false := rfl
+@[simp] theorem isStmt_beginBad : isStmt .beginBad = false := rfl
+@[simp] theorem isBeginBad_beginBad : isBeginBad .beginBad = true := rfl
+@[simp] theorem isBeginBad_begin (ok : Bool) : isBeginBad (.begin ok) = false := rfl
+@[simp] theorem isBeginBad_exec (i : Nat) (ok : Bool) : isBeginBad (.exec i ok) = false := rfl
+@[simp] theorem isBeginBad_query (i : Nat) (ok : Bool) : isBeginBad (.query i ok) = false := rfl
+@[simp] theorem isBeginBad_commit (ok : Bool) : isBeginBad (.commit ok) = false := rfl
+@[simp] theorem isBeginBad_rollback (ok : Bool) : isBeginBad (.rollback ok) = false := rfl
 
-theorem stmtEv_all (i : Nat) (s : Stmt) : (stmtEv i s).all isStmt = true := by
-  unfold stmtEv; cases s.kind <;> simp [isStmt]
+theorem stmtEv_all (c : Option Nat) (i : Nat) (s : Stmt) : (stmtEvAt c i s).all isStmt = true := by
+  unfold stmtEvAt; cases s.kind <;> simp <;> split <;> simp
 
-theorem runStmts_all (l : List Stmt) : ∀ i, (runStmts i l).1.all isStmt = true := by
+theorem runStmts_all (c : Option Nat) (dl : Bool) (l : List Stmt) :
+    ∀ i, (runStmts c dl i l).1.all isStmt = true := by
   induction l with
   | nil => intro i; simp [runStmts]
   | cons s rest ih =>
     intro i
     unfold runStmts
     split
-    · exact stmtEv_all i s
-    · simp only [List.all_append, Bool.and_eq_true]; exact ⟨stmtEv_all i s, ih (i + 1)⟩
+    · exact stmtEv_all c i s
+    · simp only [List.all_append, Bool.and_eq_true]; exact ⟨stmtEv_all c i s, ih (i + 1)⟩
 
 theorem runBody_all (b : Body) : (runBody b).1.all isStmt = true := by
-  unfold runBody; split <;> exact runStmts_all b.stmts 0
+  unfold runBody; split <;> exact runStmts_all _ _ b.stmts 0
 
 /-- the body never ends "not run" once it is run -/
 theorem runBody_ne_notRun (b : Body) : (runBody b).2 ≠ .notRun := by
@@ -88,8 +101,8 @@ theorem stmt_not_rollback (e : Ev) : isStmt e = true → isRollback e = false :=
   cases e <;> simp [isStmt, isRollback]
 theorem stmt_not_end (e : Ev) : isStmt e = true → isEnd e = false := by
   cases e <;> simp [isStmt, isEnd, isCommit, isRollback]
-theorem stmt_not_notBegin (e : Ev) : isStmt e = true → (!isBegin e) = true := by
-  cases e <;> simp [isStmt, isBegin]
+theorem stmt_not_beginish (e : Ev) : isStmt e = true → (!isBegin e && !isBeginBad e) = true := by
+  cases e <;> simp [isStmt, isBegin, isBeginBad]
 
 theorem not_mem_of_all {l : List Ev} (hl : l.all isStmt = true) (x : Ev) (hx : isStmt x = false) : x ∉ l := by
   intro hm
@@ -98,93 +111,227 @@ theorem not_mem_of_all {l : List Ev} (hl : l.all isStmt = true) (x : Ev) (hx : i
   rw [hx] at this
   exact Bool.noConfusion this
 
-/-! ### every clause of the property holds of `transactOnConn`, for every fault plan and body -/
-theorem all_notBegin (evs : List Ev) (h : evs.all isStmt = true) : evs.all (fun e => !isBegin e) = true := by
+/-! ### every clause of the property holds of `transactOnce` (the Begin attempt that is not retried),
+for every fault plan and body -/
+theorem all_notBeginish (evs : List Ev) (h : evs.all isStmt = true) :
+    evs.all (fun e => !isBegin e && !isBeginBad e) = true := by
   rw [List.all_eq_true] at *
-  intro e he; exact stmt_not_notBegin e (h e he)
+  intro e he; exact stmt_not_beginish e (h e he)
 
-theorem beginsOnce_onConn (f : Faults) (b : Body) : beginsOnce (transactOnConn f b) = true := by
+theorem beginsOnce_once (f : Faults) (b : Body) : beginsOnce (transactOnce f b) = true := by
   have hall := runBody_all b
   have h1 := filter_nil_of_all stmt_not_begin _ hall
-  have h2 := all_notBegin _ hall
-  unfold transactOnConn beginsOnce count
+  have h2 := all_notBeginish _ hall
+  unfold transactOnce beginsOnce count
   generalize (runBody b).1 = evs at *
   generalize (runBody b).2 = out at *
-  cases f.begin <;> cases out <;> simp [h1, h2, List.filter_cons, List.filter_append, List.all_append] 
+  cases f.begin <;> cases out <;> cases f.rollbackPanics <;> cases f.commitPanics <;>
+    simp [h1, h2, List.filter_cons, List.filter_append, List.all_append]
 
-theorem endsExactlyOnce_onConn (f : Faults) (b : Body) : endsExactlyOnce (transactOnConn f b) = true := by
+theorem endsExactlyOnce_once (f : Faults) (b : Body) : endsExactlyOnce (transactOnce f b) = true := by
   have hall := runBody_all b
   have h1 := filter_nil_of_all stmt_not_end _ hall
   have h2 := any_false_of_all stmt_not_beginOk _ hall
-  unfold transactOnConn endsExactlyOnce count begun
+  unfold transactOnce endsExactlyOnce count begun
   generalize (runBody b).1 = evs at *
   generalize (runBody b).2 = out at *
-  cases f.begin <;> cases out <;> simp [h1, h2, List.filter_cons, List.filter_append, getLast?_cons_snoc] 
+  cases f.begin <;> cases out <;> cases f.rollbackPanics <;> cases f.commitPanics <;>
+    simp [h1, h2, List.filter_cons, List.filter_append, getLast?_cons_snoc]
 
-theorem bodyRunsIffBegun_onConn (f : Faults) (b : Body) : bodyRunsIffBegun (transactOnConn f b) = true := by
+theorem bodyRunsIffBegun_once (f : Faults) (b : Body) : bodyRunsIffBegun (transactOnce f b) = true := by
   have hall := runBody_all b
   have h2 := any_false_of_all stmt_not_beginOk _ hall
   have hne := runBody_ne_notRun b
-  unfold transactOnConn bodyRunsIffBegun begun
+  unfold transactOnce bodyRunsIffBegun begun
   generalize (runBody b).1 = evs at *
   generalize (runBody b).2 = out at *
-  cases f.begin <;> cases out <;> simp [h2] at hne ⊢
+  cases f.begin <;> cases out <;> cases f.rollbackPanics <;> cases f.commitPanics <;> simp [h2] at hne ⊢
 
-theorem commitIffBodyOk_onConn (f : Faults) (b : Body) : commitIffBodyOk (transactOnConn f b) = true := by
+theorem commitIffBodyOk_once (f : Faults) (b : Body) : commitIffBodyOk (transactOnce f b) = true := by
   have hall := runBody_all b
   have h1 := any_false_of_all stmt_not_commit _ hall
   have h2 := any_false_of_all stmt_not_beginOk _ hall
   have hne := runBody_ne_notRun b
-  unfold transactOnConn commitIffBodyOk begun
+  unfold transactOnce commitIffBodyOk begun
   generalize (runBody b).1 = evs at *
   generalize (runBody b).2 = out at *
-  cases f.begin <;> cases out <;> simp [h1, h2] at hne ⊢
+  cases f.begin <;> cases out <;> cases f.rollbackPanics <;> cases f.commitPanics <;> simp [h1, h2] at hne ⊢
 
-theorem rollbackIffBodyFailed_onConn (f : Faults) (b : Body) : rollbackIffBodyFailed (transactOnConn f b) = true := by
+theorem rollbackIffBodyFailed_once (f : Faults) (b : Body) : rollbackIffBodyFailed (transactOnce f b) = true := by
   have hall := runBody_all b
   have h1 := any_false_of_all stmt_not_rollback _ hall
   have h2 := any_false_of_all stmt_not_beginOk _ hall
   have hne := runBody_ne_notRun b
-  unfold transactOnConn rollbackIffBodyFailed begun
+  unfold transactOnce rollbackIffBodyFailed begun
   generalize (runBody b).1 = evs at *
   generalize (runBody b).2 = out at *
-  cases f.begin <;> cases out <;> simp [h1, h2, bodyFailed] at hne ⊢
+  cases f.begin <;> cases out <;> cases f.rollbackPanics <;> cases f.commitPanics <;>
+    simp [h1, h2, bodyFailed] at hne ⊢
 
-theorem panicReported_onConn (f : Faults) (b : Body) : panicReported (transactOnConn f b) = true := by
-  unfold transactOnConn panicReported
+theorem panicReported_once (f : Faults) (b : Body) : panicReported (transactOnce f b) = true := by
+  unfold transactOnce panicReported
   generalize (runBody b).1 = evs at *
   generalize (runBody b).2 = out at *
-  cases f.begin <;> cases out <;> simp [Err.mentions]
+  cases f.begin <;> cases out <;> cases f.rollbackPanics <;> cases f.commitPanics <;> simp [Err.mentions]
 
-theorem nilIffCommitOk_onConn (f : Faults) (b : Body) : nilIffCommitOk (transactOnConn f b) = true := by
+theorem nilIffCommitOk_once (f : Faults) (b : Body) : nilIffCommitOk (transactOnce f b) = true := by
   have hall := runBody_all b
   have h1 := not_mem_of_all hall (.commit true) rfl
-  unfold transactOnConn nilIffCommitOk
+  unfold transactOnce nilIffCommitOk
   generalize (runBody b).1 = evs at *
   generalize (runBody b).2 = out at *
-  cases f.begin <;> cases out <;> cases f.commit <;> cases f.rollback <;> simp [h1, Err.of]
+  cases f.begin <;> cases out <;> cases f.commit <;> cases f.rollback <;> cases f.rollbackPanics <;>
+    cases f.commitPanics <;> simp [h1, Err.of]
 
-theorem endFailuresReported_onConn (f : Faults) (b : Body) : endFailuresReported (transactOnConn f b) = true := by
+theorem endFailuresReported_once (f : Faults) (b : Body) : endFailuresReported (transactOnce f b) = true := by
   have hall := runBody_all b
   have h1 := not_mem_of_all hall (.commit false) rfl
   have h2 := not_mem_of_all hall (.rollback false) rfl
-  unfold transactOnConn endFailuresReported reports
+  unfold transactOnce endFailuresReported retIs
   generalize (runBody b).1 = evs at *
   generalize (runBody b).2 = out at *
-  cases f.begin <;> cases out <;> cases f.commit <;> cases f.rollback <;> simp [h1, h2, Err.of, Err.mentions]
+  cases f.begin <;> cases out <;> cases f.commit <;> cases f.rollback <;> cases f.rollbackPanics <;>
+    cases f.commitPanics <;> simp [h1, h2, Err.of]
 
-theorem bodyErrorReported_onConn (f : Faults) (b : Body) : bodyErrorReported (transactOnConn f b) = true := by
-  unfold transactOnConn bodyErrorReported reports
+theorem bodyErrorReported_once (f : Faults) (b : Body) : bodyErrorReported (transactOnce f b) = true := by
+  unfold transactOnce bodyErrorReported reports
   generalize (runBody b).1 = evs at *
   generalize (runBody b).2 = out at *
-  cases f.begin <;> cases out <;> cases f.rollback <;> simp [Err.mentions] <;> (intro x hx; simp [hx])
+  cases f.begin <;> cases out <;> cases f.rollback <;> cases f.rollbackPanics <;> cases f.commitPanics <;>
+    simp [Err.mentions] <;> (intro x hx; simp [hx])
 
-/-! ### … and of `TransactCtx` (breaker + context + connection provider around it) -/
+theorem orderlyReturn_once (f : Faults) (b : Body) : orderlyReturn (transactOnce f b) = true := by
+  unfold transactOnce orderlyReturn
+  generalize (runBody b).1 = evs at *
+  generalize (runBody b).2 = out at *
+  cases f.begin <;> cases out <;> cases f.rollbackPanics <;> cases f.commitPanics <;>
+    simp [getLast?_cons_snoc]
+
+theorem beginFailureReported_once (f : Faults) (b : Body) : beginFailureReported (transactOnce f b) = true := by
+  have hall := runBody_all b
+  have h1 := not_mem_of_all hall (.begin false) rfl
+  have h2 := any_false_of_all (p := isBeginBad) (q := isStmt) (by intro e; cases e <;> simp) _ hall
+  unfold transactOnce beginFailureReported retIs
+  generalize (runBody b).1 = evs at *
+  generalize (runBody b).2 = out at *
+  cases f.begin <;> cases out <;> cases f.rollbackPanics <;> cases f.commitPanics <;>
+    simp [h1, h2, Err.of]
+
+theorem holds_once (f : Faults) (b : Body) : holds (transactOnce f b) = true := by
+  simp only [holds, beginsOnce_once, endsExactlyOnce_once, bodyRunsIffBegun_once, commitIffBodyOk_once,
+    rollbackIffBodyFailed_once, panicReported_once, nilIffCommitOk_once, endFailuresReported_once,
+    bodyErrorReported_once, orderlyReturn_once, beginFailureReported_once, Bool.and_self]
+
+theorem log_once_ne_nil (f : Faults) (b : Body) : (transactOnce f b).log ≠ [] := by
+  unfold transactOnce
+  cases f.begin <;> simp
+  split <;> split <;> simp
+
+theorem log_once_has_begin (f : Faults) (b : Body) : (transactOnce f b).log.any isBegin = true := by
+  unfold transactOnce
+  cases f.begin <;> simp
+  split <;> split <;> simp
+
+/-! ### Begin attempts answered driver.ErrBadConn in front of the log change none of the clauses -/
+
+theorem filter_badPrefix (p : Ev → Bool) (hp : p .beginBad = false) (n : Nat) (l : List Ev) :
+    (badPrefix n l).filter p = l.filter p := by
+  induction n with
+  | zero => rfl
+  | succ n ih => simp [badPrefix, hp, ih]
+
+theorem count_bad_badPrefix (n : Nat) (l : List Ev) :
+    (List.filter isBeginBad (badPrefix n l)).length = n + (List.filter isBeginBad l).length := by
+  induction n with
+  | zero => simp [badPrefix]
+  | succ n ih => simp [badPrefix, List.filter_cons, ih]; omega
+
+theorem any_badPrefix (p : Ev → Bool) (hp : p .beginBad = false) (n : Nat) (l : List Ev) :
+    (badPrefix n l).any p = l.any p := by
+  induction n with
+  | zero => rfl
+  | succ n ih => simp [badPrefix, hp, ih]
+
+theorem dropWhile_badPrefix (n : Nat) (l : List Ev) :
+    (badPrefix n l).dropWhile isBeginBad = l.dropWhile isBeginBad := by
+  induction n with
+  | zero => rfl
+  | succ n ih => simp [badPrefix, List.dropWhile_cons, ih]
+
+theorem badPrefix_ne_nil (n : Nat) (l : List Ev) (hl : l ≠ []) : badPrefix n l ≠ [] := by
+  cases n <;> simp [badPrefix, hl]
+
+theorem getLast?_badPrefix (n : Nat) (l : List Ev) (hl : l ≠ []) : (badPrefix n l).getLast? = l.getLast? := by
+  induction n with
+  | zero => rfl
+  | succ n ih =>
+    have := badPrefix_ne_nil n l hl
+    cases h : badPrefix n l with
+    | nil => exact absurd h this
+    | cons a t => simp [badPrefix, h, List.getLast?_cons_cons, ← ih]
+
+theorem mem_badPrefix (x : Ev) (hx : x ≠ .beginBad) (n : Nat) (l : List Ev) : x ∈ badPrefix n l ↔ x ∈ l := by
+  induction n with
+  | zero => rfl
+  | succ n ih => simp [badPrefix, hx, ih]
+
+theorem mem_badPrefix_or (x : Ev) (n : Nat) (l : List Ev) : x ∈ badPrefix n l → x = .beginBad ∨ x ∈ l := by
+  induction n with
+  | zero => exact Or.inr
+  | succ n ih =>
+    intro h
+    simp only [badPrefix, List.mem_cons] at h
+    rcases h with h | h
+    · exact Or.inl h
+    · exact ih h
+
+theorem mem_refusedBegins (f : Faults) (a : Ev) : a ∈ refusedBegins f → a = .beginBad ∨ a = .begin false := by
+  unfold refusedBegins
+  split <;> intro h <;> rcases mem_badPrefix_or _ _ _ h with h | h <;> simp_all
+
+theorem contains_badPrefix (x : Ev) (hx : x ≠ .beginBad) (n : Nat) (l : List Ev) :
+    (badPrefix n l).contains x = l.contains x := by
+  rw [Bool.eq_iff_iff]; simp [mem_badPrefix x hx n l]
+
+theorem badPrefix_append (n : Nat) (l m : List Ev) : badPrefix n l ++ m = badPrefix n (l ++ m) := by
+  induction n with
+  | zero => rfl
+  | succ n ih => simp [badPrefix, ih]
+
+theorem holds_badPrefix (r : Result) (n : Nat) (hne : r.log ≠ []) (hb : r.log.any isBegin = true) :
+    holds { r with log := badPrefix n r.log } = holds r := by
+  have e1 : beginsOnce { r with log := badPrefix n r.log } = beginsOnce r := by
+    simp only [beginsOnce, count, filter_badPrefix isBegin rfl, dropWhile_badPrefix] <;> rfl
+  have e2 : endsExactlyOnce { r with log := badPrefix n r.log } = endsExactlyOnce r := by
+    simp only [endsExactlyOnce, begun, count, filter_badPrefix isEnd rfl, filter_badPrefix isStmt rfl,
+      any_badPrefix isBeginOk rfl, getLast?_badPrefix n r.log hne] <;> rfl
+  have e3 : bodyRunsIffBegun { r with log := badPrefix n r.log } = bodyRunsIffBegun r := by
+    simp only [bodyRunsIffBegun, begun, any_badPrefix isBeginOk rfl] <;> rfl
+  have e4 : commitIffBodyOk { r with log := badPrefix n r.log } = commitIffBodyOk r := by
+    simp only [commitIffBodyOk, begun, any_badPrefix isBeginOk rfl, any_badPrefix isCommit rfl] <;> rfl
+  have e5 : rollbackIffBodyFailed { r with log := badPrefix n r.log } = rollbackIffBodyFailed r := by
+    simp only [rollbackIffBodyFailed, begun, any_badPrefix isBeginOk rfl, any_badPrefix isRollback rfl] <;> rfl
+  have e6 : panicReported { r with log := badPrefix n r.log } = panicReported r := rfl
+  have e7 : nilIffCommitOk { r with log := badPrefix n r.log } = nilIffCommitOk r := by
+    simp only [nilIffCommitOk, contains_badPrefix (.commit true) (by simp)] <;> rfl
+  have e8 : endFailuresReported { r with log := badPrefix n r.log } = endFailuresReported r := by
+    simp only [endFailuresReported, retIs, contains_badPrefix (.commit false) (by simp),
+      contains_badPrefix (.rollback false) (by simp)] <;> rfl
+  have e9 : bodyErrorReported { r with log := badPrefix n r.log } = bodyErrorReported r := rfl
+  have e11 : beginFailureReported { r with log := badPrefix n r.log } = beginFailureReported r := by
+    simp [beginFailureReported, retIs, mem_badPrefix (.begin false) (by simp : Ev.begin false ≠ .beginBad),
+      any_badPrefix isBegin rfl, hb]
+  have e10 : orderlyReturn { r with log := badPrefix n r.log } = orderlyReturn r := by
+    simp only [orderlyReturn, getLast?_badPrefix n r.log hne] <;> rfl
+  simp only [holds, e1, e2, e3, e4, e5, e6, e7, e8, e9, e10, e11]
+
+/-! ### … hence of `transactOnConn` and of `TransactCtx` (breaker + context + connection provider around it) -/
 
 theorem holds_onConn (f : Faults) (b : Body) : holds (transactOnConn f b) = true := by
-  simp only [holds, beginsOnce_onConn, endsExactlyOnce_onConn, bodyRunsIffBegun_onConn, commitIffBodyOk_onConn,
-    rollbackIffBodyFailed_onConn, panicReported_onConn, nilIffCommitOk_onConn, endFailuresReported_onConn,
-    bodyErrorReported_onConn, Bool.and_self]
+  unfold transactOnConn
+  split
+  · decide
+  · rw [holds_badPrefix _ _ (log_once_ne_nil f b) (log_once_has_begin f b)]; exact holds_once f b
 
 /-- none of the clauses looks at what the breaker was told -/
 theorem holds_mark (r : Result) (m : Option Bool) : holds { r with mark := m } = holds r := rfl
@@ -192,33 +339,46 @@ theorem holds_mark (r : Result) (m : Option Bool) : holds { r with mark := m } =
 theorem holds_ctx (env : Env) (f : Faults) (b : Body) : holds (transactCtx env f b) = true := by
   unfold transactCtx
   split
-  · decide
+  · cases env.ctxDead <;> decide
   · split
     · decide
     · split
       · decide
       · rw [holds_mark]; exact holds_onConn f b
 
+theorem breakerTold_ctx (env : Env) (f : Faults) (b : Body) :
+    breakerTold env.userAccept (transactCtx env f b) = true := by
+  unfold transactCtx breakerTold markOf
+  cases env.ctxDone <;> cases env.brkAllow <;> cases env.connOk <;> simp [acceptable, Err.of, srcAcceptable]
+  cases (transactOnConn f b).escaped <;> simp
+
 /-! ### the exact shape of the driver-call log -/
+
+theorem log_shape_once (f : Faults) (b : Body) :
+    (transactOnce f b).log =
+      if f.begin then .begin true :: ((runBody b).1 ++ [endEvent f b]) else [.begin false] := by
+  have hne := runBody_ne_notRun b
+  unfold transactOnce endEvent Faults.commitOk Faults.rollbackOk
+  cases f.begin <;> simp
+  cases h : (runBody b).2 <;> cases f.rollbackPanics <;> cases f.commitPanics <;> simp_all
 
 theorem log_shape_onConn (f : Faults) (b : Body) :
     (transactOnConn f b).log =
-      if f.begin then .begin true :: ((runBody b).1 ++ [endEvent f b]) else [.begin false] := by
-  unfold transactOnConn endEvent
+      if f.opens then badPrefix f.badConn (.begin true :: ((runBody b).1 ++ [endEvent f b]))
+      else refusedBegins f := by
+  unfold transactOnConn Faults.opens refusedBegins
+  cases h : f.givesUp <;> simp [log_shape_once]
   cases f.begin <;> simp
-  split <;> simp_all
-  rename_i x h1 h2
-  cases h : (runBody b).2 <;> simp_all
-  exact absurd h (runBody_ne_notRun b)
 
 theorem log_shape_ctx (env : Env) (f : Faults) (b : Body) :
     (transactCtx env f b).log =
-      if opened env f then .begin true :: ((runBody b).1 ++ [endEvent f b])
-      else if env.admitted then [.begin false] else [] := by
+      if opened env f then badPrefix f.badConn (.begin true :: ((runBody b).1 ++ [endEvent f b]))
+      else if env.admitted then refusedBegins f else [] := by
   unfold transactCtx opened Env.admitted
   cases env.ctxDone <;> cases env.brkAllow <;> cases env.connOk <;> simp [log_shape_onConn]
 
-theorem runStmts_executed (l : List Stmt) : ∀ i, (runStmts i l).1 = eventsOf i (executed l) := by
+theorem runStmts_executed (c : Option Nat) (dl : Bool) (l : List Stmt) :
+    ∀ i, (runStmts c dl i l).1 = eventsOf c i (executed c i l) := by
   induction l with
   | nil => intro i; rfl
   | cons s rest ih =>
@@ -230,48 +390,110 @@ theorem runStmts_executed (l : List Stmt) : ∀ i, (runStmts i l).1 = eventsOf i
 
 /-! ### closed forms of the other result fields -/
 
-/-- ret/runs/body/mark of TransactCtx in closed form -/
+theorem opened_iff (env : Env) (f : Faults) :
+    opened env f = true ↔
+      (env.ctxDone = false ∧ env.brkAllow = true ∧ env.connOk = true ∧ f.givesUp = false ∧ f.begin = true) := by
+  unfold opened Env.admitted Faults.opens
+  cases env.ctxDone <;> cases env.brkAllow <;> cases env.connOk <;> cases f.givesUp <;> cases f.begin <;> simp
+
+/-- runs/body/ret/escaped of `transactOnConn` are those of the attempt that is not retried -/
+theorem runs_onConn (f : Faults) (b : Body) : (transactOnConn f b).runs = if f.opens then 1 else 0 := by
+  unfold transactOnConn transactOnce Faults.opens
+  cases f.givesUp <;> cases f.begin <;> simp
+  split <;> split <;> rfl
+
+theorem body_onConn (f : Faults) (b : Body) :
+    (transactOnConn f b).body = if f.opens then (runBody b).2 else .notRun := by
+  have hne := runBody_ne_notRun b
+  unfold transactOnConn transactOnce Faults.opens
+  cases f.givesUp <;> cases f.begin <;> simp
+  cases h : (runBody b).2 <;> cases f.rollbackPanics <;> cases f.commitPanics <;> simp_all
+
+/-- the returned error (or the panic value the call leaves with), in closed form, when a transaction was opened -/
+theorem ret_onConn_opens (f : Faults) (b : Body) (h : f.opens = true) :
+    (transactOnConn f b).ret =
+      match (runBody b).2 with
+      | .panic => if f.rollbackPanics then some (Err.of .rollback)
+                  else some { is := if f.rollback then [] else [.rollback], says := [.panic] }
+      | .err e => if f.rollbackPanics then some (Err.of .rollback)
+                  else some (if f.rollback then e else { is := [.rollback], says := e.is ++ e.says })
+      | _ => if f.commitPanics then some (Err.of .commit)
+             else if f.commit then none else some (Err.of .commit) := by
+  unfold Faults.opens at h
+  unfold transactOnConn transactOnce
+  cases h1 : f.givesUp <;> cases h2 : f.begin <;> simp_all
+  cases h : (runBody b).2 <;> cases f.rollbackPanics <;> cases f.commitPanics <;> simp
+
+theorem escaped_onConn (f : Faults) (b : Body) :
+    (transactOnConn f b).escaped =
+      (f.opens && (match (runBody b).2 with
+                   | .nil => f.commitPanics
+                   | _ => f.rollbackPanics)) := by
+  have hne := runBody_ne_notRun b
+  unfold transactOnConn transactOnce Faults.opens
+  cases f.givesUp <;> cases f.begin <;> simp
+  cases h : (runBody b).2 <;> cases f.rollbackPanics <;> cases f.commitPanics <;> simp_all
+
+theorem ret_onConn_not_opens (f : Faults) (b : Body) (h : f.opens = false) :
+    (transactOnConn f b).ret = some (Err.of (if f.givesUp then .badConn else .begin)) := by
+  unfold Faults.opens at h
+  unfold transactOnConn transactOnce
+  cases h1 : f.givesUp <;> cases h2 : f.begin <;> simp_all
+
 theorem runs_ctx (env : Env) (f : Faults) (b : Body) :
     (transactCtx env f b).runs = if opened env f then 1 else 0 := by
-  unfold transactCtx transactOnConn opened Env.admitted
-  cases env.ctxDone <;> cases env.brkAllow <;> cases env.connOk <;> cases f.begin <;> simp <;> split <;> rfl
+  unfold transactCtx opened Env.admitted
+  cases env.ctxDone <;> cases env.brkAllow <;> cases env.connOk <;> simp [runs_onConn]
 
 theorem body_ctx (env : Env) (f : Faults) (b : Body) :
     (transactCtx env f b).body = if opened env f then (runBody b).2 else .notRun := by
-  unfold transactCtx transactOnConn opened Env.admitted
-  cases env.ctxDone <;> cases env.brkAllow <;> cases env.connOk <;> cases f.begin <;> simp
-  cases h : (runBody b).2 <;> simp
-  exact absurd h (runBody_ne_notRun b)
+  unfold transactCtx opened Env.admitted
+  cases env.ctxDone <;> cases env.brkAllow <;> cases env.connOk <;> simp [body_onConn]
 
-/-- the returned error, in closed form, when a transaction was opened -/
+theorem ret_admitted (env : Env) (f : Faults) (b : Body) (h : env.admitted = true) :
+    (transactCtx env f b).ret = (transactOnConn f b).ret ∧
+    (transactCtx env f b).escaped = (transactOnConn f b).escaped := by
+  unfold Env.admitted at h
+  unfold transactCtx
+  cases h1 : env.ctxDone <;> cases h2 : env.brkAllow <;> cases h3 : env.connOk <;> simp_all
+
 theorem ret_opened (env : Env) (f : Faults) (b : Body) (h : opened env f = true) :
     (transactCtx env f b).ret =
       match (runBody b).2 with
-      | .panic => some { is := if f.rollback then [] else [.rollback], says := [.panic] }
-      | .err e => some (if f.rollback then e else { is := [.rollback], says := e.is ++ e.says })
-      | _ => if f.commit then none else some (Err.of .commit) := by
-  unfold opened Env.admitted at h
-  unfold transactCtx transactOnConn
-  cases h1 : env.ctxDone <;> cases h2 : env.brkAllow <;> cases h3 : env.connOk <;> cases h4 : f.begin <;> simp_all
-  cases h : (runBody b).2 <;> simp
+      | .panic => if f.rollbackPanics then some (Err.of .rollback)
+                  else some { is := if f.rollback then [] else [.rollback], says := [.panic] }
+      | .err e => if f.rollbackPanics then some (Err.of .rollback)
+                  else some (if f.rollback then e else { is := [.rollback], says := e.is ++ e.says })
+      | _ => if f.commitPanics then some (Err.of .commit)
+             else if f.commit then none else some (Err.of .commit) := by
+  unfold opened at h
+  simp only [Bool.and_eq_true] at h
+  rw [(ret_admitted env f b h.1).1, ret_onConn_opens f b h.2]
 
 theorem ret_not_opened (env : Env) (f : Faults) (b : Body) (h : opened env f = false) :
     (transactCtx env f b).ret =
-      some (Err.of (if env.ctxDone then .ctx else if !env.brkAllow then .breaker else if !env.connOk then .conn else .begin)) := by
+      some (Err.of (if env.ctxDone then ctxSrc env.ctxDead else if !env.brkAllow then .breaker
+                    else if !env.connOk then .conn else if f.givesUp then .badConn else .begin)) := by
   unfold opened Env.admitted at h
-  unfold transactCtx transactOnConn
-  cases h1 : env.ctxDone <;> cases h2 : env.brkAllow <;> cases h3 : env.connOk <;> cases h4 : f.begin <;> simp_all
+  unfold transactCtx
+  cases h1 : env.ctxDone <;> cases h2 : env.brkAllow <;> cases h3 : env.connOk <;> simp_all
+  exact ret_onConn_not_opens f b h
 
-theorem opened_iff (env : Env) (f : Faults) :
-    opened env f = true ↔ (env.ctxDone = false ∧ env.brkAllow = true ∧ env.connOk = true ∧ f.begin = true) := by
-  unfold opened Env.admitted
-  cases env.ctxDone <;> cases env.brkAllow <;> cases env.connOk <;> cases f.begin <;> simp
+theorem escaped_ctx (env : Env) (f : Faults) (b : Body) :
+    (transactCtx env f b).escaped =
+      (opened env f && (match (runBody b).2 with
+                        | .nil => f.commitPanics
+                        | _ => f.rollbackPanics)) := by
+  unfold transactCtx opened Env.admitted
+  cases env.ctxDone <;> cases env.brkAllow <;> cases env.connOk <;> simp [escaped_onConn]
 
 theorem mark_ctx (env : Env) (f : Faults) (b : Body) :
     (transactCtx env f b).mark =
       if env.ctxDone || !env.brkAllow then none
-      else some (env.connOk && acceptable env.userAccept (transactCtx env f b).ret) := by
-  unfold transactCtx
+      else if !env.connOk then some false
+      else if (transactCtx env f b).escaped then none
+      else some (acceptable env.userAccept (transactCtx env f b).ret) := by
+  unfold transactCtx markOf
   cases env.ctxDone <;> cases env.brkAllow <;> cases env.connOk <;> simp
 
 theorem violated_nil_of_holds (r : Result) (h : holds r = true) : violated r = [] := by
